@@ -93,9 +93,9 @@ CORE = [
     '(yield ({}))',
 ]
 CORE3 = [
-    'b or ({})', 'b + ({})', 'b(k=({}))', '({}).attr', 'b[c:({})]',
+    'b or ({})', 'b(k=({}))', '({}).attr', 'b[c:({})]',
     'lambda x=({}): x', '[v for v in b if ({})]', '(v := ({}))',
-    'b if c else ({})', '{{b: ({})}}', "f'{{b:{{({})}}}}'", '(yield ({}))',
+    'b if c else ({})', "f'{{b:{{({})}}}}'",
 ]
 assert all(c in CONTEXTS for c in CORE + CORE3)
 
